@@ -734,7 +734,10 @@ def dispatch (s : Program) (f : Frame) (st : St) (e : Expr) : Disp :=
     match evalBreakLoop f.exprs f.values f.blocks with
     | none => .panic "eval_break: value or block stack underflow"
     | some (exprs, vals, blocks) =>
-      .ok ({ f with exprs := exprs, values := vals, blocks := blocks }.pushVIf used vUnit)
+      -- "Loops always evaluate to unit": the value pushed is the LOOP's (re-pushed in state E
+      -- at the head by evalBreakLoop), so it is pushed iff the loop's value is used
+      let loopUsed := match exprs with | (_, l) :: _ => l.isLoop && l.used | [] => false
+      .ok ({ f with exprs := exprs, values := vals, blocks := blocks }.pushVIf loopUsed vUnit)
   | .cont .. =>
     match evalContinueLoop f.exprs f.values f.blocks with
     | none => .panic "eval_continue: value or block stack underflow"
